@@ -12,6 +12,7 @@ mod estimate;
 mod frames;
 mod latest;
 mod msghdr;
+mod poll;
 mod radial;
 mod rda;
 mod s3;
@@ -33,6 +34,7 @@ fn main() {
     let args = Args::parse();
     match args.module.as_str() {
         "sweep" => sweep::run(&args),
+        "poll" => poll::run(&args),
         "s3" => s3::run(&args),
         "total" => total::run(&args),
         "scan" => scan::run(&args),
